@@ -142,24 +142,26 @@ Definition q_CCyl : Q -> curv3 := CCyl.
 Definition q_CSph : Q -> curv3 := CSph.
 Definition q_CFlat : @curv3 Q := CFlat.
 
+(* factories: rho, cone/helical half width, helical offset and pitch *)
+Definition obs_factory (ax bx ay by_ zmin zmax rs rd turns : Q) : option (list Q) :=
+  let rho := rho_of rt ax bx ay by_ in
+  Some [rho; cone_factory_halfwidth rho rs rd; fst (helical_params zmin zmax turns); snd (helical_params zmin zmax turns)].
+
 Definition bindg {A B} (o : option A) (f : A -> option B) : option B :=
   match o with Some a => f a | None => None end.
 
 (* implementation outcome: values, ValueError, TypeError, anything else *)
 Inductive impl_out := IOk (l : list Q) | IValueErr | ITypeErr | IOtherErr.
-(* k_typeerr: the case exercises a recorded defect whose measured variant is "raises TypeError"
-   (ConeBeamGeometry.__getitem__ with a curved detector); then exactly that outcome is demanded. *)
-Record case := { k_model : option (list Q); k_impl : impl_out; k_typeerr : bool }.
+Record case := { k_model : option (list Q); k_impl : impl_out }.
 
 Definition atol : Q := 1 # 1000000000.
 Definition rtol : Q := 1 # 1000000000.
 Definition check (k : case) : bool :=
-  if k_typeerr k then match k_impl k with ITypeErr => true | _ => false end
-  else match k_model k, k_impl k with
-       | Some m, IOk i => Qsclose atol rtol i m
-       | None, IValueErr => true
-       | _, _ => false
-       end.
+  match k_model k, k_impl k with
+  | Some m, IOk i => Qsclose atol rtol i m
+  | None, IValueErr => true
+  | _, _ => false
+  end.
 
 (* the wrappers really use the rounding carrier *)
 Example carrier_is_NQ : q_mk_par2d = @mk_par2d Q NQ Qsqrt /\ obs_cone = obs_cone /\
